@@ -18,6 +18,7 @@ PROP = 'C11'
 H = 4        # idle sleeps tolerated inside one blocking call before cutting
 
 KINDS = ('multi-of-ioport', 'multi-of-direct', 'multi-from-iterator',
+         'multi-yield-ports',
          'in-direct', 'in-parser', 'in-selfclosing', 'in-selfclosing-direct',
          'out', 'out-autoreset', 'io-autoreset', 'io-selfclosing', 'echo',
          'ioport', 'ioport-selfclosing', 'multi', 'multi-selfclosing')
@@ -114,12 +115,15 @@ def build_port(mido, kind):
                       D.InDouble('b', dev=dev('b'))]
         s.port = mido.ports.MultiPort(s.children)
         s.can_out = False
-    elif kind in ('multi', 'multi-selfclosing', 'multi-from-iterator'):
+    elif kind in ('multi', 'multi-selfclosing', 'multi-from-iterator',
+                  'multi-yield-ports'):
         acls = D.IOSelfClosing if kind == 'multi-selfclosing' else D.IODouble
         s.children = [acls('a', dev=dev('a')), D.IODouble('b', dev=dev('b'))]
         if kind == 'multi-from-iterator':
             # any iterable of ports is accepted, a one-shot one too
             s.port = mido.ports.MultiPort(p for p in s.children)
+        elif kind == 'multi-yield-ports':
+            s.port = mido.ports.MultiPort(s.children, yield_ports=True)
         else:
             s.port = mido.ports.MultiPort(s.children)
         if kind == 'multi-selfclosing':
@@ -140,6 +144,12 @@ def build_port(mido, kind):
 
 
 def msg_id(m):
+    if isinstance(m, tuple) and len(m) == 2:
+        # MultiPort(yield_ports=True) hands out (port, message); the port
+        # must be the child the message arrived on (children 'a', 'b')
+        port, m = m
+        if getattr(port, 'name', None) != 'ab'[m.velocity - 1]:
+            return ('wrong-port', getattr(port, 'name', None), m.note)
     return (m.velocity - 1, m.note)
 
 
@@ -690,6 +700,7 @@ def bulk_backlog(mido, rep):
                     continue
                 finally:
                     tshim.on_sleep = None
+                got = [g[1] if isinstance(g, tuple) else g for g in got]
                 have = [(m.channel, m.note, m.velocity) for m in got]
                 ok = sorted(have) == sorted(want)
                 for src in srcs:
